@@ -7,6 +7,7 @@ CONSTANTS
   DevPopOldest = FALSE
   DevTruncAll = FALSE
   DevSwallowBreak = FALSE
+  DevSplitLast = FALSE
 CHECK_DEADLOCK FALSE
 INVARIANT Composition
 INVARIANT LimitIsSlice
